@@ -188,12 +188,15 @@ func genEditFile(r *rand.Rand, safe bool) editFile {
 	}
 	gen := func(field string) {
 		ls := []string{key(field) + ":"}
-		for _, n := range []string{"cm1", "cm2"} {
+		for gi, n := range []string{"cm1", "cm2", "cm1"} {
 			if r.Intn(2) == 0 {
 				continue
 			}
 			ls = append(ls, "- name: "+n)
-			if r.Intn(3) == 0 {
+			if gi == 2 {
+				// the same NAME once more, in a namespace of its own: a generator is identified by name and namespace
+				ls = append(ls, "  namespace: ns2")
+			} else if r.Intn(3) == 0 {
 				ls = append(ls, "  namespace: "+pickS(r, []string{"default", "ns1"}))
 			}
 			if r.Intn(3) == 0 {
@@ -433,7 +436,7 @@ func genEditOp(r *rand.Rand, multiline bool) editOp {
 		if r.Intn(8) == 0 {
 			a = append(a, "x")
 		}
-		ns := pickS(r, []string{"", "", "default", "ns1"})
+		ns := pickS(r, []string{"", "", "default", "ns1", "ns2"})
 		argv := []string{"remove", "configmap"}
 		name := "removeConfigMap"
 		if secret {
